@@ -79,6 +79,8 @@ def main():
             results[c] = {'exit': rc, 'violations': [v[:300] for v in viol[:8]], 'n_violation_lines': len(viol), 'wall_s': round(time.time() - t0, 1),
                           'tool_error': [l[:300] for l in out.split('\n') if l.startswith('TOOL-ERROR')][:2]}
             print('%s: exit %d, %d violation lines, %.0fs' % (c, rc, len(viol), time.time() - t0))
+            if rc not in (0, 1):
+                print(out[-1500:])
             for v in viol[:4]:
                 print('   ', v[:200])
     finally:
